@@ -164,6 +164,21 @@ Definition set_val_real (f : fmt) (r : rmode) (o : omode) (raw : bool) (a : arr)
   Ok {| w_codes := map e_code rs; w_ovf := existsb e_gt rs; w_unf := existsb e_lt rs;
         w_inacc := existsb e_inacc rs |})).
 
+(* set_val, complex path (objects.py, second branch of set_val): the real and the imaginary
+   parts are float64 arrays that go SEPARATELY through scale, _round, _overflow_action (each
+   raising the flags on its own) and astype; the codes are rebuilt as a complex128 array
+   (exact below 2^53).  The Python-object variant (real part beyond 2^64, or 64-bit words)
+   is not modelled. *)
+Record cwres := { cw_re : list Z; cw_im : list Z; cw_ovf : bool; cw_unf : bool; cw_inacc : bool }.
+Definition set_val_complex (f : fmt) (r : rmode) (o : omode) (res ims : list f64) : outcome cwres :=
+  if existsb num_big64 (map NF res) || (64 <=? nw f) then Unmodelled
+  else
+    bind (mapM (elem_pipe f r o false false) (map NF res)) (fun rr =>
+    bind (mapM (elem_pipe f r o false false) (map NF ims)) (fun ri =>
+    Ok {| cw_re := map e_code rr; cw_im := map e_code ri;
+          cw_ovf := existsb e_gt rr || existsb e_gt ri; cw_unf := existsb e_lt rr || existsb e_lt ri;
+          cw_inacc := existsb e_inacc rr || existsb e_inacc ri |})).
+
 (* the value read back: astype(float) = raw_val / conv_factor (objects.py:976-978) *)
 Definition get_val_f64 (f : fmt) (c : Z) : f64 := f64_mul_pow2 (f64_of_Z c) (- nf f).
 
